@@ -98,13 +98,6 @@ def validMethod (s : JStr) : Bool :=
 def validObj (s : JStr) : Bool :=
   !startsWithBracket s && (splitOn SLASH s).all validUnqualified
 
-/-- `is_valid_arr_class_name`: as coded, only the first character is looked at -/
-def validArr (s : JStr) : Bool := startsWithBracket s
-
-/-- `is_valid_class_name` -/
-def validClass (s : JStr) : Bool :=
-  if startsWithBracket s then true else (splitOn SLASH s).all validUnqualified
-
 /-- `FieldDescriptor::check_valid`, `MethodDescriptor::check_valid`, `ReturnDescriptor::check_valid`: `Ok(())` with
 a `TODO: parse the desc and fail if invalid`; the descriptor newtypes accept every string, validation happens in
 `parse()` only -/
@@ -174,6 +167,14 @@ def parseField (s : JStr) : Option Ty :=
   match readFieldType s with
   | some (t, []) => some t
   | _ => none
+
+/-- `is_valid_arr_class_name` (since b182f7d): starts with `[` and `FieldDescriptorSlice::parse` accepts it
+(`<&FieldDescriptorSlice>::try_from` never fails, `validDescriptorNewtype`) -/
+def validArr (s : JStr) : Bool := startsWithBracket s && (parseField s).isSome
+
+/-- `is_valid_class_name`: the array check for `[`-prefixed strings, otherwise `/`-separated unqualified names -/
+def validClass (s : JStr) : Bool :=
+  if startsWithBracket s then validArr s else (splitOn SLASH s).all validUnqualified
 
 /-- `read_field_type` or the `V` shortcut, shared by return and method descriptors -/
 def readReturn (s : JStr) : Option (Option Ty × JStr) :=
